@@ -405,7 +405,7 @@ func runC11(env *core.Env) {
 	shortCov := map[string]interface{}{"rich": shortWritePhase(env, "C11", rich.Store, planCmds), "torn-tail": shortWritePhase(env, "C11", pres[3], planCmds[:1])}
 	env.Finish("model_checking", map[string]interface{}{
 		"short_write_phase": shortCov,
-		"states": len(pres), "transitions": evals, "traces_validated_against_impl": validated, "samples": samples.list,
+		"states":            len(pres), "transitions": evals, "traces_validated_against_impl": validated, "samples": samples.list,
 		"exhaustive": env.TimeLeft(), "documents": len(docs) + len(c11Raw), "accepted": acc, "rejected": rej, "outcome_classes": cls,
 		"unconfirmed_candidates": unconfirmed.Load(),
 		"bound":                  "all plan documents with 1-2 tasks over title variants {distinct, duplicate, case variant, trailing space, blank, missing, NFC/NFD} x `after` multisets (<=2) over {other, own, dangling, empty, case variant, trailing-space variant}; all 3-task documents with `after` multisets over the other two titles (every relation incl. cyclic) for distinct and duplicate titles; thorough: all 4096 relations on 4 tasks; body/epic-title variants; 22 structurally invalid payloads + a valid document followed by each of 20 stray tokens (4 separators) or preceded by each of 9; x 5 pre-stores (empty, rich, legacy file name, 2 torn tails)",
